@@ -22,6 +22,7 @@ import (
 	"math/rand"
 	"os"
 	"strings"
+	"sync"
 	"testing"
 	"testing/synctest"
 	"time"
@@ -568,7 +569,46 @@ func durOrNone(n int64) string {
 	return dur(n)
 }
 
+// watchdog: a case that does not finish within 20 s of real time (under virtual time every case takes
+// milliseconds) means the code under test livelocks or deadlocks inside the bubble. The process cannot
+// recover from that; the result so far plus the hanging case (as a broken tie, with the case) is
+// written and the process exits.
+type watchdog struct {
+	mu    sync.Mutex
+	cur   *Case
+	since time.Time
+}
+
+func (w *watchdog) enter(c Case) {
+	w.mu.Lock()
+	w.cur, w.since = &c, time.Now()
+	w.mu.Unlock()
+}
+
+func (w *watchdog) leave() {
+	w.mu.Lock()
+	w.cur = nil
+	w.mu.Unlock()
+}
+
+func (w *watchdog) watch(res *vlib.Result, out string) {
+	for {
+		time.Sleep(500 * time.Millisecond)
+		w.mu.Lock()
+		c, since := w.cur, w.since
+		w.mu.Unlock()
+		if c != nil && time.Since(since) > 20*time.Second {
+			res.Fail(vlib.Failure{Source: "correspondence", Kind: "case-hangs", Params: map[string]interface{}{},
+				What: "the case did not finish: the code under test livelocks or deadlocks under virtual time (the model terminates on it)", Case: *c})
+			res.Write(out)
+			fmt.Println("watchdog: case hangs:", c.String())
+			os.Exit(0)
+		}
+	}
+}
+
 type runner struct {
+	wd    *watchdog
 	t     *testing.T
 	env   vlib.Env
 	res   *vlib.Result
@@ -582,6 +622,10 @@ type runner struct {
 // evalCase runs the case once on the real code; returns the monitor failure (if any) and the
 // model lines.
 func (x *runner) evalCase(c Case) (*fail, []string, bool) {
+	if x.wd != nil {
+		x.wd.enter(c)
+		defer x.wd.leave()
+	}
 	switch c.Kind {
 	case "sleep":
 		o := runSleep(x.t, *c.Sleep)
@@ -734,7 +778,8 @@ func TestVerif(t *testing.T) {
 		os.Exit(1)
 	}
 	res := vlib.NewResult("C20", "sleep: d > 0 (the call can block and the context matters); ticker: at least two ticks were observed or a Reset/Stop raced with a firing timer")
-	x := &runner{t: t, env: env, res: res}
+	x := &runner{t: t, env: env, res: res, wd: &watchdog{}}
+	go x.wd.watch(res, env.Out)
 	defer func() {
 		x.flushModel()
 		if x.model != nil {
@@ -774,7 +819,7 @@ func TestVerif(t *testing.T) {
 	if env.Thorough() {
 		maxD = 6
 	}
-	for d := int64(1); d <= maxD; d++ {
+	for d := maxD; d >= 1; d-- { // larger periods first: a livelock at d - jitter = 1 should not hide the rest
 		for j := int64(0); j < d; j++ {
 			for at := int64(1); at <= d+j; at++ {
 				for _, op := range []string{"stop", "reset", "none"} {
